@@ -1,5 +1,186 @@
-/- Engine `tlink` (C06): not built yet. -/
+/-
+  Engine `tlink` (C06).  Op lines:
+
+    seq  <maxMsg> <nmsgs> <op>…              op: w<hex>|a<hex> write/writeArray, x<hex> raw_write,
+                                                  r read, l read_lookahead, h hasNext, k hasNextLookahead
+         → one token per op: a|d (accepted/dropped), m<hex>|m- (message returned / nothing), 1|0
+    conc <maxMsg> <nmsgs> <chunk> <wops> <rops> <sched>
+                                             wops: w<hex>,x<hex>,… or -; rops: string over h k r l or -;
+                                             sched: string over w r (thread choices) or -
+         → T <access trace> W <accept flags> R <reader results> D <messages drained afterwards> F<fault>
+    enum <maxMsg> <nmsgs> <chunk> <wops> <rops> <limit> <warm: 0|1>
+         → every complete schedule of the model, comma separated (used by the generator only)
+    soak …  → `soak ok` (the implementation side runs two free-running threads)
+-/
+import RtoscModel.Ring.Frame
+import RtoscModel.Ring.Conc
 import Driver.Common
 namespace Driver.TlinkEngine
-def engine : Driver.Engine := Driver.stateless (fun _ => "unimplemented")
+open Rtosc Rtosc.Ring
+
+def hexTok (cs : List Char) : Option Bytes :=
+  if cs = ['-'] then some [] else ofHexChars cs
+
+def parseSeqOp (t : String) : Option Op :=
+  match t.toList with
+  | ['r'] => some .read
+  | ['l'] => some .readLookahead
+  | ['h'] => some .hasNext
+  | ['k'] => some .hasNextLookahead
+  | 'w' :: cs => (hexTok cs).map .write
+  | 'a' :: cs => (hexTok cs).map .write
+  | 'x' :: cs => (hexTok cs).map .rawWrite
+  | _ => none
+
+def showSeq (before after : Seq) : Out → String
+  | .unit => if before.w = after.w then "d" else "a"
+  | .bool b => if b then "1" else "0"
+  | .msg none => "m-"
+  | .msg (some m) => "m" ++ toHex m
+
+def runSeq (s : Seq) : List Op → List String → Seq × List String
+  | [], acc => (s, acc.reverse)
+  | op :: ops, acc =>
+    let (s', o) := s.step frameExec op
+    runSeq s' ops (showSeq s s' o :: acc)
+
+def seqLine (ws : List String) : String :=
+  match ws with
+  | mm :: nn :: ops =>
+    match mm.toNat?, nn.toNat?, ops.mapM parseSeqOp with
+    | some maxMsg, some nmsgs, some ops =>
+      let (s, outs) := runSeq (Seq.init maxMsg nmsgs) ops []
+      " ".intercalate outs ++ (if s.fault then " FAULT" else "")
+    | _, _, _ => "bad-op"
+  | _ => "bad-op"
+
+def parseWOps (t : String) : Option (List WOp) :=
+  if t = "-" then some [] else
+  (t.splitOn ",").mapM fun tok =>
+    match tok.toList with
+    | 'w' :: cs => (hexTok cs).map .write
+    | 'a' :: cs => (hexTok cs).map .write
+    | 'x' :: cs => (hexTok cs).map .rawWrite
+    | _ => none
+
+def parseROps (t : String) : Option (List ROp) :=
+  if t = "-" then some [] else
+  t.toList.mapM fun
+    | 'h' => some (.hasNext false)
+    | 'k' => some (.hasNext true)
+    | 'r' => some (.read false)
+    | 'l' => some (.read true)
+    | _ => none
+
+def parseSched (t : String) : Option (List Tid) :=
+  if t = "-" then some [] else
+  t.toList.mapM fun
+    | 'w' => some Tid.writer
+    | 'r' => some Tid.reader
+    | _ => none
+
+def showEv : Ev → String
+  | .loadR v => s!"lr{v}"
+  | .copyIn o n => s!"ci{o}+{n}"
+  | .storeW v => s!"sw{v}"
+  | .loadW v => s!"lw{v}"
+  | .frame o n l => s!"fr{o}+{n}={l}"
+  | .copyOut o n => s!"co{o}+{n}"
+  | .storeR v => s!"sr{v}"
+
+def showROut : ROut → String
+  | .hasNext false b => if b then "h1" else "h0"
+  | .hasNext true b => if b then "k1" else "k0"
+  | .read false m => "r" ++ toHex m
+  | .read true m => "l" ++ toHex m
+
+/-- when the schedule is used up: the writer runs to completion, then the reader -/
+def finish (s : Conc) (acc : Array Ev) : Nat → Conc × Array Ev
+  | 0 => (s, acc)
+  | f + 1 =>
+    match s.step frameExec .writer with
+    | some (s', e) => finish s' (acc.push e) f
+    | none =>
+      match s.step frameExec .reader with
+      | some (s', e) => finish s' (acc.push e) f
+      | none => (s, acc)
+
+def drain (s : Seq) (acc : Array String) : Nat → Array String
+  | 0 => acc
+  | f + 1 =>
+    if s.hasNext false then
+      let (s', len) := s.read frameExec false
+      drain s' (acc.push (toHex (s'.rbuf.take len))) f
+    else acc
+
+def joinOr (xs : List String) (sep : String) : String :=
+  if xs.isEmpty then "-" else sep.intercalate xs
+
+def concLine (ws : List String) : String :=
+  match ws with
+  | [mm, nn, cc, wo, ro, sc] =>
+    match mm.toNat?, nn.toNat?, cc.toNat?, parseWOps wo, parseROps ro, parseSched sc with
+    | some maxMsg, some nmsgs, some chunk, some wops, some rops, some sched =>
+      let s0 := Conc.init frameExec maxMsg nmsgs chunk wops rops
+      let (s1, es) := Conc.run frameExec sched s0
+      let (s2, es2) := finish s1 es.toArray 1000000
+      let d := drain s2.toSeq #[] (s2.N + 2)
+      let flags := String.ofList (s2.wlog.map fun e => if e.2 then 'a' else 'd')
+      s!"T {joinOr (es2.toList.map showEv) ","} W {if flags.isEmpty then "-" else flags} R {joinOr (s2.rlog.map showROut) ","} D {joinOr d.toList ","} F{if s2.fault then 1 else 0}"
+    | _, _, _, _, _, _ => "bad-op"
+  | _ => "bad-op"
+
+/-- all maximal schedules from `s` (depth first), `none` once more than `limit` exist -/
+partial def enumSched (s : Conc) (pre : List Char) (acc : Array String) (limit : Nat) :
+    Option (Array String) :=
+  let sw := s.step frameExec .writer
+  let sr := s.step frameExec .reader
+  match sw, sr with
+  | none, none =>
+    if acc.size ≥ limit then none else some (acc.push (String.ofList pre.reverse))
+  | _, _ =>
+    let acc1 := match sw with
+      | some (s', _) => enumSched s' ('w' :: pre) acc limit
+      | none => some acc
+    match acc1, sr with
+    | none, _ => none
+    | some a, some (s', _) => enumSched s' ('r' :: pre) a limit
+    | some a, none => some a
+
+/-- sequential warm-up: the writer completes its first operation, then the reader its first -/
+def warmUp (s : Conc) (pre : List Char) : Nat → Conc × List Char
+  | 0 => (s, pre)
+  | f + 1 =>
+    if s.wlog.isEmpty then
+      match s.step frameExec .writer with
+      | some (s', _) => warmUp s' ('w' :: pre) f
+      | none => (s, pre)
+    else if s.rlog.isEmpty then
+      match s.step frameExec .reader with
+      | some (s', _) => warmUp s' ('r' :: pre) f
+      | none => (s, pre)
+    else (s, pre)
+
+def enumLine (ws : List String) : String :=
+  match ws with
+  | [mm, nn, cc, wo, ro, lim, warm] =>
+    match mm.toNat?, nn.toNat?, cc.toNat?, parseWOps wo, parseROps ro, lim.toNat? with
+    | some maxMsg, some nmsgs, some chunk, some wops, some rops, some limit =>
+      let s0 := Conc.init frameExec maxMsg nmsgs chunk wops rops
+      let (s1, pre) := if warm = "1" then warmUp s0 [] 10000 else (s0, [])
+      match enumSched s1 pre #[] limit with
+      | none => "toomany"
+      | some a => joinOr a.toList ","
+    | _, _, _, _, _, _ => "bad-op"
+  | _ => "bad-op"
+
+def step (line : String) : String :=
+  match words line with
+  | "seq" :: ws => seqLine ws
+  | "conc" :: ws => concLine ws
+  | "enum" :: ws => enumLine ws
+  | "soak" :: _ => "soak ok"
+  | _ => "bad-op"
+
+def engine : Driver.Engine := Driver.stateless step
 end Driver.TlinkEngine
